@@ -111,6 +111,23 @@ def make_db(ir, nm, m, start, nsim, values=None, unant_periods=(0,), ant_periods
     return db
 
 
+class DenseObjectMatrix(np.ndarray):
+    """dense object-dtype stand-in for the scipy sparse Jacobian (scipy rejects object data): slicing keeps the class, `tocoo()` reports the
+    rows that hold an entry (used by Terminator.terminate_jacobian to complete its map), `copy()` and `@` are numpy's"""
+
+    @classmethod
+    def zeros(cls, shape):
+        a = np.zeros(shape, dtype=object).view(cls)
+        return a
+
+    def tocoo(self):
+        rows, cols = [], []
+        for (i, j), x in np.ndenumerate(np.asarray(self)):
+            if isinstance(x, S.SReal) or (not isinstance(x, S.SReal) and x != 0):
+                rows.append(i); cols.append(j)
+        return types.SimpleNamespace(row=np.array(rows, dtype=int), col=np.array(cols, dtype=int))
+
+
 class StackedLift:
     def __init__(self, ir, start, lift_rows, param_rows, exact=False, values=None, symbolic_cells=None, shock_rows=()):
         from irispie.stacked_time import simulators as sts, _evaluators as ste, _equators as steq
@@ -130,6 +147,8 @@ class StackedLift:
         self.frames = []
         self.final = {}            # (name, k) -> cell after the last frame that touched it
         self.inputs = {}
+        self.capture_jacobian = False
+        self.jacobians = []
 
     def __enter__(self):
         sts = self.sts
@@ -146,6 +165,15 @@ class StackedLift:
                 sv = v.v if isinstance(v, S.SReal) else float(v)
                 g[i] = S.sym(f"g{c}_{i}", None if (isinstance(sv, float) and not math.isfinite(sv)) else sv)
             f = eval_func(g, data)
+            if outer.capture_jacobian:
+                # the Jacobian the solver would be given, evaluated at the same symbolic point (C02: stacked-time Jacobian conjunct)
+                try:
+                    J = eval_jacob(g, data)
+                    outer.jacobians.append(dict(g=g, f=list(np.asarray(f, dtype=object).flat), J=np.asarray(J, dtype=object)))
+                except S.SymbolicBranchError:
+                    raise
+                except Exception as exc:
+                    outer.jacobians.append(dict(error=f"{type(exc).__name__}: {str(exc)[:200]}"))
             tol = S.rv(S.float_fraction(float(kw.get("func_tolerance", 1e-12))))
             for fi in np.asarray(f, dtype=object).flat:
                 t = S.const(fi).t
@@ -222,6 +250,9 @@ class StackedLift:
         self.proxy = npproxy.Proxy()
         extra = [(sts, "simulate_frame", lifted_frame), (sts, "_nq", types.SimpleNamespace(damped_newton=stub_newton, ExitStatus=realnq.ExitStatus)),
                  npproxy.adaptations_patch(self.proxy)]
+        if self.capture_jacobian:
+            from irispie.jacobians import base as jb
+            extra.append((jb.SparseJacobian, "_initialize_jacobian_matrix", lambda self_: DenseObjectMatrix.zeros(self_._shape)))
         self._ctx = npproxy.installed(self.proxy, *self.mods, extra=extra)
         self._ctx.__enter__()
         return self
